@@ -5,19 +5,9 @@
    Lines:  {"a":"cfg","acps":[profile..],"ents":{id:{live,sys,attrs,o2g}}}   configuration in force
            {"a":"search","kind":"ext"|"recycle"|"exists","id":{..},"f":filter,"req":[..],"all":bool,
             "m":[candidate ids],"res":..,"out":{id:[attr names]},"ex":bool} *)
-EXTENDS KAccess, Json, IOUtils
+EXTENDS KAccessNorm, Json, IOUtils
 Rec == ndJsonDeserialize(IOEnv.TRACE)
 VARIABLES l, c
-
-NEnt(x, r) == [id |-> x, live |-> r.live, sys |-> r.sys,
-               attrs |-> [a \in DOMAIN r.attrs |-> Range(r.attrs[a])], o2g |-> Range(r.o2g)]
-NEnts(o) == [x \in DOMAIN o |-> NEnt(x, o[x])]
-NProf(r) == [rk |-> r.rk, rg |-> Range(r.rg), tgt |-> r.tgt, srch |-> r.srch, sa |-> Range(r.sa),
-             mod |-> r.mod, pa |-> Range(r.pa), ra |-> Range(r.ra), pc |-> Range(r.pc), rc |-> Range(r.rc),
-             cre |-> r.cre, ca |-> Range(r.ca), cc |-> Range(r.cc), del |-> r.del]
-NProfs(s) == {NProf(s[i]) : i \in DOMAIN s}
-NId(r) == [u |-> r.u, mo |-> Range(r.mo), scope |-> r.scope, origin |-> r.origin, anon |-> r.anon,
-           cls |-> Range(r.cls), spu |-> Range(r.spu)]
 
 Out(r) == [x \in DOMAIN r.out |-> Range(r.out[x])]
 
